@@ -15,7 +15,179 @@ CASE_TIMEOUT = {"quick": 900, "thorough": 3000}
 def enumerate_cases(tier, seed):
     yield from _gen.cases(tier, seed)
     yield from _gen.corpus_cases(tier, seed)
+    for k in range(len(PIECES)):
+        yield ("attach", {"start": k, "depth": 3 if tier == "quick" else 4})
 
 
 def eval_case(kind, data):
+    if kind == "attach":
+        from ..common import new_result
+
+        return eval_attach(new_result(), data)
     return _gen.evaluate("C04", ("C04",), data)
+
+
+# ---------------------------------------------------------------------------------------------------------------------
+# Direct use of the attachment step (MolGen.attach_other): breadth-first search over operation sequences on real objects.
+# A state is the growing molecule G plus a library of piece objects P_k that are REUSED as `other` (the call stores the
+# result in G and must leave P_k as it was).  Reference model: molecules with labelled dummy atoms at their open
+# descriptors; attaching = drop the two dummies and bond their neighbours with the prescribed order.
+
+PIECES = ["[$]CC[$]", "[$]CCO", "C([$])[$]", "[<]CC[>]", "[>]N", "[$]=CC=[$]", "[<]C(F)[>]"]
+
+
+def _ref_piece(text):
+    """reference molecule with dummies: (RWMol, [dummy atom idx per open descriptor], [DescRef])"""
+    from rdkit import Chem
+
+    from ..refsem import token_ref
+
+    tr = token_ref(text)
+    return Chem.RWMol(tr.mol), list(tr.dummy_idx), list(tr.descs)
+
+
+def _ref_attach(g, other, i, j):
+    """g, other = (mol, dummies, descs); returns the combined reference state"""
+    from rdkit import Chem
+
+    gm, gd, gs = g
+    om, od, os_ = other
+    n = gm.GetNumAtoms()
+    comb = Chem.RWMol(Chem.CombineMols(gm, om))
+    a_d, b_d = gd[i], od[j] + n
+    a = comb.GetAtomWithIdx(a_d).GetNeighbors()[0].GetIdx()
+    b = comb.GetAtomWithIdx(b_d).GetNeighbors()[0].GetIdx()
+    bt = comb.GetBondBetweenAtoms(a_d, a).GetBondType()
+    comb.AddBond(a, b, bt)
+    dummies = [x for k, x in enumerate(gd) if k != i] + [x + n for k, x in enumerate(od) if k != j]
+    descs = [d for k, d in enumerate(gs) if k != i] + [d for k, d in enumerate(os_) if k != j]
+    for idx in sorted([a_d, b_d], reverse=True):
+        comb.RemoveAtom(idx)
+        dummies = [x - 1 if x > idx else x for x in dummies]
+    return comb, dummies, descs
+
+
+def _canon_with_dummies(mol, dummy_labels):
+    """canonical SMILES; dummy_labels: {atom idx: label int}"""
+    from rdkit import Chem
+
+    m = Chem.RWMol(mol)
+    for a in m.GetAtoms():
+        a.SetAtomMapNum(0)
+        if a.GetAtomicNum() == 0:
+            a.SetIsotope(dummy_labels.get(a.GetIdx(), 0))
+    mm = m.GetMol()
+    Chem.SanitizeMol(mm)
+    return Chem.MolToSmiles(mm)
+
+
+def _impl_canon(mg, label_of):
+    """the implementation's molecule with a labelled dummy atom on the atom of every open descriptor"""
+    from rdkit import Chem
+
+    rw = Chem.RWMol(mg.mol)
+    for a in rw.GetAtoms():
+        a.SetAtomMapNum(0)
+    labels = {}
+    for bd in mg.bond_descriptors:
+        d = rw.AddAtom(Chem.Atom(0))
+        rw.AddBond(int(bd.atom_bonding_to), d, Chem.BondType(int(bd.bond_type)))
+        labels[d] = label_of(bd.generate_string(True))
+    return _canon_with_dummies(rw, labels)
+
+
+def eval_attach(res, data):
+    import gbigsmiles
+    from gbigsmiles.mol_gen import MolGen
+
+    from ..common import run_limited, viol
+    from ..refsem import compat, parse_desc
+
+    start = data["start"]
+    depth = data["depth"]
+    texts = PIECES
+    label_cache = {}
+
+    def label_of(desc_text):
+        d = parse_desc(desc_text)
+        key = (d.symbol, d.id, )
+        return 1 + sorted({("$", None): 1, ("<", None): 2, (">", None): 3}.get(key, 4) for _ in [0])[0]
+
+    def fresh():
+        pieces = [MolGen(gbigsmiles.SmilesToken(t, 0, k)) for k, t in enumerate(texts)]
+        g = MolGen(gbigsmiles.SmilesToken(texts[start], 0, len(texts)))
+        return g, pieces
+
+    def ref_label(d):
+        return {"$": 2, "<": 3, ">": 4}.get(d.symbol, 5)
+
+    def ref_canon(state):
+        mol, dummies, descs = state
+        return _canon_with_dummies(mol, {x: ref_label(d) for x, d in zip(dummies, descs)})
+
+    def run_history(hist):
+        """replay on fresh objects; returns (violation or None, list of enabled next ops)"""
+        g, pieces = fresh()
+        ref_g = _ref_piece(texts[start])
+        ref_p = [_ref_piece(t) for t in texts]
+        for (i, k, j) in hist:
+            expect_ok = compat(ref_g[2][i], ref_p[k][2][j])
+            st, out = run_limited(lambda: g.attach_other(i, pieces[k], j), (), 20)
+            if expect_ok and st != "ok":
+                return (f"C04|attach-raises|{texts[k]}", f"attach_other({i}, MolGen({texts[k]!r}), {j}) after {hist[: hist.index((i, k, j))]} raises {out} although the descriptors are compatible"), []
+            if not expect_ok:
+                if st == "ok":
+                    return (f"C04|attach-accepts-incompatible|{texts[k]}", f"attach_other joins {ref_g[2][i]} with {ref_p[k][2][j]} (history {hist})"), []
+                return None, []  # refused, as it must: the history ends here
+            ref_g = _ref_attach(ref_g, ref_p[k], i, j)
+            # the piece used as `other` is unchanged (it may be used again)
+            try:
+                same = _impl_canon(pieces[k], lambda t: {"$": 2, "<": 3, ">": 4}.get(parse_desc(t).symbol, 5)) == ref_canon(ref_p[k])
+            except Exception as e:  # noqa
+                same = False
+            if not same:
+                return (f"C04|attach-changes-the-other-molecule|{texts[k]}", f"after G.attach_other({i}, P, {j}) the molecule P = MolGen({texts[k]!r}) that was attached is no longer what it was (history {hist})"), []
+            try:
+                got = _impl_canon(g, lambda t: {"$": 2, "<": 3, ">": 4}.get(parse_desc(t).symbol, 5))
+            except Exception as e:  # noqa
+                return (f"C04|attach-result-not-a-molecule|{texts[k]}", f"history {hist} from MolGen({texts[start]!r}): {type(e).__name__}: {str(e)[:80]}"), []
+            exp = ref_canon(ref_g)
+            if got != exp:
+                return (f"C04|attach-bonds-wrong-atoms|{'reused-piece' if sum(1 for h in hist if h[1] == k) > 1 else 'first-use'}", f"history {hist} from MolGen({texts[start]!r}) with pieces {texts}: result {got}, the descriptors denote {exp}"), []
+        nxt = []
+        for i in range(len(ref_g[2])):
+            for k in range(len(texts)):
+                for j in range(len(ref_p[k][2])):
+                    nxt.append((i, k, j))
+        return None, nxt
+
+    frontier = [[]]
+    n = 0
+    seen_bad = set()
+    for dep in range(depth):
+        new = []
+        for hist in frontier:
+            v, nxt = run_history(hist) if hist else (None, run_history([])[1])
+            for op in nxt:
+                h2 = hist + [op]
+                n += 1
+                v2, nxt2 = run_history(h2)
+                res["transitions"] += len(h2)
+                if v2 is not None:
+                    if v2[0] not in seen_bad:
+                        seen_bad.add(v2[0])
+                        viol(res, v2[0], v2[1], {"start": start, "hist": [list(x) for x in h2]})
+                    continue
+                # only histories whose last attach was accepted are extended; incompatible attempts end a history
+                if nxt2 and dep + 1 < depth:
+                    # keep the compatible continuations small: at most one incompatible attempt is explored per state
+                    new.append(h2)
+        frontier = new
+    res["states"] = n
+    res["traces"] = n
+    res["evals"] = n
+    res["nontrivial"] = ["attach-histories", texts[start], n]
+    res["outcomes"] = [f"attach:{texts[start]}:{n}"]
+    res["sample"] = {"start_piece": texts[start], "pieces": texts, "histories": n, "depth": depth}
+    res["extra"] = {"attach_histories": n}
+    return res
